@@ -76,6 +76,14 @@ def main():
     n, seed, workers = int(opt("--n", "100")), int(opt("--seed", "1")), int(opt("--workers", "4"))
     out, tier, only = opt("--out", "/tmp/mutsweep"), opt("--tier", "quick"), opt("--only", "")
     os.makedirs(out, exist_ok=True)
+    # the checks run from a snapshot of /verif taken now, so that editing the harness while a
+    # sweep is running cannot disturb it
+    snap = os.path.join(out, "verif-snap")
+    shutil.rmtree(snap, ignore_errors=True)
+    os.makedirs(snap)
+    for name in ("check", "known_findings.json"):
+        shutil.copy(os.path.join(VERIF, name), snap)
+    shutil.copytree(os.path.join(VERIF, "harness"), os.path.join(snap, "harness"))
     gomut = os.path.join(out, "gomut")
     rc, o = sh(["go", "build", "-o", gomut, "."], cwd=os.path.join(VERIF, "tools", "gomut"))
     if rc != 0:
@@ -154,7 +162,7 @@ def main():
                             env = dict(ENV, VERIF_REPO=wt, VERIF_NOFUZZ="1")
                             for c in (only_checks or order_for(rel)):
                                 try:
-                                    rc, o = sh([os.path.join(VERIF, "check"), c, tier], cwd=VERIF, env=env, timeout=1500)
+                                    rc, o = sh([os.path.join(snap, "check"), c, tier], cwd=snap, env=env, timeout=1500)
                                 except subprocess.TimeoutExpired:
                                     rc, o = 2, "timeout"
                                 rec["ran"].append([c, rc])
